@@ -12,7 +12,6 @@ import sys
 
 sys.path.insert(0, os.path.dirname(os.path.dirname(os.path.abspath(__file__))))
 
-import z3
 
 import cfront
 from cfront import Ptr, ival, U64
@@ -26,7 +25,6 @@ def main(argv):
     from lib import cgen
     from lib.cgen import Mapper
     from lib.runner import Ctx
-    from lib.codec import asn1tools
     from checks import C09, C10
 
     class RandCtx(Ctx):
